@@ -238,3 +238,17 @@ func runRoutingConnection(res *lp.Result) {
 		cancel()
 	}
 }
+
+// … and over the v5 segment framing with an independent raw peer as the server (several responses for different requests,
+// out of order, in ONE self-contained segment; a response split over segments): the raw-server scenarios of C15, each in a
+// child process.
+func runRoutingRawPeer(res *lp.Result) {
+	all := c15Scenarios()
+	var idx []int
+	for i, s := range all {
+		if s.kind == "raw-server" && s.variant == 0 {
+			idx = append(idx, i)
+		}
+	}
+	runScenariosAt(res, "C15CONN", idx, func(i int) string { return all[i].String() })
+}
